@@ -131,7 +131,9 @@ pub fn check_c06(res: &RunResult) -> V {
         let mut inst_i = 0;
         for a in seq {
             // a snapshot install resets the expected next index
-            while inst_i < inst.len() && inst[inst_i].0 <= a.at_ms && inst[inst_i].1 >= a.prev_applied.min(inst[inst_i].1) && a.prev_applied == inst[inst_i].1 {
+            // (several installs may follow each other without an apply in between; an install in the same
+            // millisecond as this chunk precedes it iff the SM's own last_applied before the chunk covers it)
+            while inst_i < inst.len() && (inst[inst_i].0 < a.at_ms || (inst[inst_i].0 == a.at_ms && a.prev_applied >= inst[inst_i].1)) {
                 expected = Some(inst[inst_i].1 + 1);
                 inst_i += 1;
             }
